@@ -1156,6 +1156,9 @@ func enumerate(s *rt.Section, run *rt.Run, alpha []Edit, length int, seps []stri
 // tails
 
 var tailJunk = []string{"#", ";", "。", "！", "]", "}", ")", "？", "@", "~"}
+// tailNotes continue the last value with a binary operator and then break off (an unterminated string, a template,
+// a dangling operator): the operator and what follows are given back as rest text, the value stays as written
+var tailNotes = []string{" -\"备注", " +'note", " /'备注", "||", " && 'x", " -`a{1}", " * (2", " -\"a\\", " ?? \"", " == '备"}
 var tailAssign = []string{"敏捷", "敏捷:", "敏捷=", "敏捷 =", "敏捷*", "敏捷*2", "敏捷*:", "&敏捷", "&敏捷=", "&敏捷:", "'敏捷", "'敏捷 1'", "'敏 捷':", ":", "=", "*2:3", "&"}
 var tailMod = []string{"敏捷", "敏捷+", "敏捷+=", "敏捷-", "敏捷-=", "敏捷 +", "敏捷 -= ", "'敏捷 1'", "'敏捷 1'+=", "射击:弓箭", "射击:弓箭-=", "+", "-=", "'敏捷"}
 
@@ -1204,17 +1207,20 @@ func TestProp(t *testing.T) {
 			}
 			last := &c.Edits[len(c.Edits)-1]
 			last.Sep = rapid.SampledFrom([]string{"", " ", ",", " , "}).Draw(t, "tailsep")
-			kind := rapid.IntRange(0, 3).Draw(t, "tailkind")
+			kind := rapid.IntRange(0, 4).Draw(t, "tailkind")
 			switch {
 			case kind == 0:
 				c.Tail = rapid.SampledFrom(tailJunk).Draw(t, "junk")
+			case kind == 4:
+				c.Tail = rapid.SampledFrom(tailNotes).Draw(t, "note")
+				last.Sep = rapid.SampledFrom([]string{"", " "}).Draw(t, "noteSep")
 			case last.T == "mod":
 				c.Tail = rapid.SampledFrom(tailMod).Draw(t, "cut")
 			default:
 				c.Tail = rapid.SampledFrom(tailAssign).Draw(t, "cut")
 			}
 			// a tail that begins with an operator character would continue the last value
-			if last.Sep == "" || last.Sep == " " {
+			if kind != 4 && (last.Sep == "" || last.Sep == " ") {
 				switch c.Tail[0] {
 				case '+', '-', '*', '=', ':', '&', ')':
 					last.Sep = ","
@@ -1225,7 +1231,7 @@ func TestProp(t *testing.T) {
 			if kind != 0 {
 				s.NonTrivial(h)
 			}
-			s.Class(fmt.Sprintf("tail-kind:%v", map[bool]string{true: "junk", false: "cut-short-edit"}[kind == 0]))
+			s.Class(fmt.Sprintf("tail-kind:%v", map[int]string{0: "junk", 4: "operator-then-broken-operand"}[kind]+map[bool]string{true: "cut-short-edit"}[kind != 0 && kind != 4]))
 			s.Class("family:" + map[bool]string{true: "mod", false: "assign"}[last.T == "mod"])
 			s.Sample(h, c.Source())
 			s.Crumb(c)
